@@ -288,7 +288,7 @@ func killOnce(kc KillCase) outcome {
 func scenarios(o *hx.Opts) []Scenario {
 	r := hx.NewRand(o.Seed*7919 + 3)
 	var out []Scenario
-	for _, n := range []string{"basic", "compact", "restore", "follow", "behind", "reopen", "restorev3", "pinned", "ckptbusy", "l0ret"} {
+	for _, n := range []string{"basic", "compact", "restore", "follow", "behind", "reopen", "restorev3", "pinned", "ckptbusy", "l0ret", "chunked"} {
 		out = append(out, Scenario{Name: n, Seed: r.Uint64() % 1000000, Rounds: 2 + r.Intn(2)})
 	}
 	return out
@@ -515,7 +515,7 @@ func main() {
 	}
 	o := hx.ParseFlags("C03")
 	res := hx.NewResult(o, "c03: kill engine (ptrace supervisor, SIGKILL before the k-th mutating call) + restart oracle; recorded traces judged by Lean killOK")
-	res.Rule = "scenarios {basic, compact(+snapshot, retention), restore, follow, behind, reopen, restorev3, pinned (reader blocks WAL restart), ckptbusy (commits during litestream's checkpoints), l0ret (L1 compaction + L0 retention with short L0Retention while a local L0 file still waits for upload)}; one case = (scenario, seed, rounds, k): the child is killed immediately before its k-th file-system-mutating call under the scenario root (openat O_CREAT/O_TRUNC, write*, ftruncate, rename*, unlink*, mkdir*, copy_file_range...), then restarted; quick: every rename/unlink on litestream-owned names with its neighbours (seeded cap 16 per scenario, always every open of a staging file inside litestream's own checkpoint and the first call after every burst of LTX deletes) + 6 seeded others per scenario; thorough: every k. Between the kill and the restart the application keeps working in its own process (seeded: commits, wal_checkpoint PASSIVE/FULL/RESTART/TRUNCATE, commits, connection closed or left open), and the restart's first sync runs with or without a fresh commit; in a seeded share of the cases the restarted process first runs 0-2 idle syncs and DB.Snapshot BEFORE any new application write, restores and compares with the source, then continues with or without a write. non-trivial = the kill point was reached"
+	res.Rule = "scenarios {basic, compact(+snapshot, retention), restore, follow, behind, reopen, restorev3, pinned (reader blocks WAL restart), ckptbusy (commits during litestream's checkpoints), l0ret (L1 compaction + L0 retention with short L0Retention while a local L0 file still waits for upload), chunked (bounded sync chunks under a small MaxSyncWALBytes)}; one case = (scenario, seed, rounds, k): the child is killed immediately before its k-th file-system-mutating call under the scenario root (openat O_CREAT/O_TRUNC, write*, ftruncate, rename*, unlink*, mkdir*, copy_file_range...), then restarted; quick: every rename/unlink on litestream-owned names with its neighbours (seeded cap 16 per scenario, always every open of a staging file inside litestream's own checkpoint and the first call after every burst of LTX deletes) + 6 seeded others per scenario; thorough: every k. Between the kill and the restart the application keeps working in its own process (seeded: commits, wal_checkpoint PASSIVE/FULL/RESTART/TRUNCATE, commits, connection closed or left open), and the restart's first sync runs with or without a fresh commit; in a seeded share of the cases the restarted process first runs 0-2 idle syncs and DB.Snapshot BEFORE any new application write, restores and compares with the source, then continues with or without a write. non-trivial = the kill point was reached"
 	g := &engine{o: o, res: res}
 	if o.Replay != "" {
 		os.Exit(g.replay())
